@@ -1267,7 +1267,7 @@ class C18(Prop):
         batch: list = []
 
         # (a) three-way glob diff
-        n_pairs = ctx.scale(12000, 150000)
+        n_pairs = ctx.scale(25000, 300000)
         glob_batch = []
         for i in range(n_pairs):
             pat, name = gen_pair(rng)
@@ -1324,7 +1324,7 @@ class C18(Prop):
                 self._do_session(lay, res, s2, batch, ["loop:" + tag] * len(s["dgrams"]))
             if len(batch) >= 200:
                 self._flush(res, batch, "Discovery.handleRead vs _UdpResponder")
-        for i in range(ctx.scale(2500, 40000)):
+        for i in range(ctx.scale(5000, 100000)):
             s, kinds = gen_session(rng, lay, rng.randint(1, 14))
             if i % 25 == 0:
                 s["mode"] = "loop"
@@ -1337,11 +1337,13 @@ class C18(Prop):
         ctx.log("responder sessions done")
 
         # (d) the asking side
+        from qmi.core.util import is_valid_object_name
         cb: list = []
-        for i in range(ctx.scale(2500, 30000)):
+        for i in range(ctx.scale(5000, 60000)):
             c = gen_client(rng, lay)
-            if i % 400 == 0 and c["self"].isascii() and c["self"].replace("?", "").replace("*", "").isalnum():
+            if i % 100 < 3 and is_valid_object_name(c["self"]):      # a real QMI_Context (leaves a daemon thread behind: only a few)
                 c["real_ctx"] = True
+                res.count("client_calls_on_real_QMI_Context")
             self._do_client(lay, res, c, cb)
             if i < 2:
                 res.sample({"client": {**c, "dgrams": c["dgrams"][:2]}})
